@@ -30,6 +30,10 @@ SIGMA = ["'", '"', "\\", "%", "_", "-", ";", "/", "*", "\x00", "\n", "\u2019", "
 LOOKALIKE = [pre + suf for pre in ("2020-01-01", "2020-01-01T10:00:00Z", "12", "1.5e3", "123e4567-e89b-12d3-a456-426614174000", "true", "null",
                                    "P1D", "10:30:00")
              for suf in ("", "' OR '1'='1", "'; --", "\\")]
+# placeholders of string templating / DB-API paramstyles: a renderer that fills templates by textual replacement must not
+# re-interpret them inside a literal
+TEMPLATES = ["$1", "$2", "$3", "$2'", "{0}", "{1}", "{}", "%s", "%(x)s", "%d", "\\1", "\\2", "?", ":p", ":1", "@p", "${x}", "#{x}", "{{", "}}",
+             "$2, 1) OR 1=1 OR INSTR(", "{1}' OR '1'='1"]
 CLASSICS = ["' OR 1=1 --", "'; DROP TABLE canary; --", "\\'", "%' --", "' UNION SELECT 1 --", "x' AND 'y'='y", "*/ OR 1=1 /*",
             "\\' OR 1=1 --", "''", "' || (SELECT 1) || '", "%_\\%\\_", "\u2019 OR 1=1 --"]
 META = set("'\"\\%_-;/*\x00\n\u2019\u02bc()|")
@@ -255,7 +259,10 @@ def payloads(k):
         for tup in product(SIGMA, repeat=n):
             out.append("".join(tup))
     conf = confusables()
-    return out + CLASSICS + LOOKALIKE + conf + ["zz" + c + " OR 1=1 --" for c in conf[::3]]
+    # combining mark, RTL override, astral character, zero-width joiner: alone and next to a quote
+    uni = ["\u0301", "\u202e", "\U0001F600", "\u200d", "e\u0301", "\ufeff"]
+    uni = uni + [u + "'" for u in uni] + ["'" + u for u in uni] + [u + "%" for u in uni]
+    return out + CLASSICS + LOOKALIKE + TEMPLATES + uni + conf + ["zz" + c + " OR 1=1 --" for c in conf[::3]]
 
 
 def run(ctx):
